@@ -454,11 +454,91 @@ def _h_async(world: World, tier: str, engine: str = "aio") -> None:
             raise Violation("cut/closed", f"after aclose(): socket closed={r.lib_sock_closed} second close prompt={r.second_close_ok}; {where}", key=f"C09/{engine}/{mode}/cut/closed")
 
 
+def _h_close_while_writing(world: World) -> None:
+    """'closing the transport sends one [close notification]' while another task is in the middle of a back-pressured
+    send_all(): the peer has sent its close_notify (the reader saw a clean end-of-stream), does not read for a while,
+    a writer is blocked holding the transport's send lock, aclose() is called, then the peer reads again well before the
+    shutdown timeout.  Oracle (wire level, standard-compatible mode): the last TLS record the library handed to its
+    socket is a close_notify alert (found missing by a seeded change)."""
+    version = world.pick("version", ["1.2", "1.3"])
+    lib_server = bool(world.choose("lib_server", 2))
+    cap = world.pick("cap", [4096, 2048, 16384])
+    nbytes = world.pick("wsize", [30000, 70000, 45000])
+    t_close = 2 + world.choose("t_close", 6)  # /64 s after the writer started
+    t_resume = t_close + 1 + world.choose("t_resume", 40)  # < shutdown timeout (30 s = 1920/64)
+    reader_first = bool(world.choose("reader_first", 2))
+    w = world
+    net = SimNet(w)
+    backend = SimAsyncIOBackend(net)
+    lib, psock = net.socketpair(capacity_ab=cap)
+    w.fault("capacity_small")
+    peer = TLSPeer(w, psock, server_side=not lib_server, version=version)
+    w.notes.update(harness="close-while-writing", version=version, lib_server=lib_server, cap=cap, nbytes=nbytes, t_close=t_close, t_resume=t_resume)
+    out: dict = {}
+
+    async def main() -> None:
+        tr = await backend.wrap_stream_socket(lib)
+        tls = await AsyncTLSStreamTransport.wrap(tr, make_context(lib_server, version), server_side=lib_server, server_hostname=None if lib_server else "sim.host")
+        await asyncio.sleep(1 / 64)
+        peer.paused = True
+        w.fault("peer_stops_reading")
+        peer.close_notify()  # half-close: the peer will not write any more, it may still read
+        if reader_first:
+            out["eof"] = await tls.recv(100)
+
+        async def writer() -> None:
+            try:
+                await tls.send_all(b"w" * nbytes)
+                out["writer"] = "ok"
+            except Exception as e:  # the connection is being closed under it: an error is fine
+                out["writer"] = type(e).__name__
+
+        wt = asyncio.get_running_loop().create_task(writer(), name="writer")
+        await asyncio.sleep(t_close / 64)
+        if wt.done():
+            raise Violation("harness/no-backpressure", "the writer finished although the peer is not reading", key="C09/close-while-writing/harness")
+        if not reader_first:
+            out["eof"] = await tls.recv(100)
+        w.after((t_resume - t_close) / 64, peer.resume)
+        t0 = w.now
+        try:
+            await tls.aclose()
+            out["aclose"] = "ok"
+        except Exception as e:
+            out["aclose"] = type(e).__name__
+        out["close_took"] = w.now - t0
+        await asyncio.wait([wt], timeout=100)
+        await asyncio.sleep(1.0)
+
+    try:
+        run_async(w, main)
+    except Deadlock:
+        raise Violation("blocked", f"close-while-writing never finishes; notes={w.notes}", key="C09/close-while-writing/blocked") from None
+    if out.get("eof") != b"":
+        raise Violation("no-cut/clean-eof", f"peer sent close_notify, reader got {out.get('eof')!r}", key="C09/close-while-writing/clean-eof")
+    w.progress()
+    wire = b"".join(lib.sent_log)
+    ends = _record_ends(wire)
+    if not ends or ends[-1] != len(wire):
+        raise Violation("harness/record-parse", "cannot parse the library's wire into records", key="C09/close-while-writing/harness-parse")
+    last_start = ends[-2] if len(ends) > 1 else 0
+    ctype = wire[last_start]
+    length = int.from_bytes(wire[last_start + 3 : last_start + 5], "big")
+    is_alert = ctype == 21 or (version == "1.3" and ctype == 23 and length == 19)
+    if out.get("aclose") == "ok" and out["close_took"] < 25.0 and not is_alert:
+        raise Violation(
+            "close-sends-notify",
+            f"aclose() returned after {out['close_took']:.3f} s (no shutdown timeout) but the last record handed to the socket is type {ctype} length {length}, not a close_notify alert; writer={out.get('writer')} notes={w.notes}",
+            key=f"C09/close-while-writing/tls{version}/close-sends-notify",
+        )
+
+
 def evidence_extra(merged: dict) -> dict:
     return {"offsets_executed": merged["counters"].get("offsets", 0), "explanation": "evaluations counts base scenarios; offsets_executed counts (scenario, cut offset) executions"}
 
 
 HARNESSES = [
+    Harness("aio-close-while-writing", _h_close_while_writing, weight=1, wall_limit=120.0),
     Harness("sync-quick", lambda w: _h_async(w, "quick", "sync"), tiers=("quick",), wall_limit=120.0),
     Harness("sync-every-offset", lambda w: _h_async(w, "thorough", "sync"), tiers=("thorough",), wall_limit=600.0),
     Harness("aio-quick", lambda w: _h_async(w, "quick"), tiers=("quick",), wall_limit=120.0),
